@@ -127,6 +127,8 @@ def run_source(src, names, case):
     def post_node(node, state, r):
         see(r)
         t = type(r)
+        if t is tuple and len(r) > 40 * bound:
+            raise _Abort()          # harness self-protection only: tuples are outside the property, runaway growth ends the case
         if (t is list or t is dict) and len(r) > bound:
             note('overlong:' + producer(node), f'{producer(node)} returned a {t.__name__} of {len(r)} elements (bound {bound})')
             raise _Abort()
@@ -230,6 +232,7 @@ def make_names(lens):
         'N': [list(range(lens['N'])), [1]],
         'DN': {'a': list(range(lens['N'])), 'b': {}},
         'K2': 2, 'K3': 3, 'KT': True,
+        'HT': tuple(range(hl)),          # host-supplied tuples are plain data too
     }
     return names
 
@@ -239,7 +242,8 @@ def run_case(case):
 
 
 # ------------------------------------------------------------------------------------------------ generation
-LIST_STEPS = ['L = L + {v}', 'L = L + None', 'L = L + True', 'L = (L + 1) + 2', 'L = L + {{}}', 'L = rand(L, 25000)', 'L = rand([0], 1000000)', 'L *= K2', 'L = L * K2', 'L *= K3', 'M = [1, 2, 3]\nM *= K3\nM *= K3', 'L *= KT', 'L.push({v})', 'push(L, {v})', 'L.insert({i}, {v})', 'L[{i}] = {v}', 'L[{i}] += {v}', 'L = L + L', 'L += L',
+LIST_STEPS = ['T = enumerate([1, 2])[0]', 'T = T + T', 'T += T', 'T = T + HT', 'T = HT + HT', 'L = reversed(T)', 'L = sorted(T)', 'L = enumerate(T)',
+              'L = reversed(HT + HT)', 'T = items(DN)[0]\nT += T', 'L = L + {v}', 'L = L + None', 'L = L + True', 'L = (L + 1) + 2', 'L = L + {{}}', 'L = rand(L, 25000)', 'L = rand([0], 1000000)', 'L *= K2', 'L = L * K2', 'L *= K3', 'M = [1, 2, 3]\nM *= K3\nM *= K3', 'L *= KT', 'L.push({v})', 'push(L, {v})', 'L.insert({i}, {v})', 'L[{i}] = {v}', 'L[{i}] += {v}', 'L = L + L', 'L += L',
               'L = L + [{v}, {v}]', 'L += [{v}]', 'L *= 2', 'L = L * 2', 'L += HL', 'L = HL + L', 'M = L', 'M += L',
               'M.push({v})', 'L += "{w}"', 'L += {{"p": 1, "q": 2}}', 'L = L[:]', 'L = L[1:] + L', 'L = reversed(L)',
               'L = sorted(L)', 'L = map(L, v => v)', 'L = filter(L, v => True)', 'L = values(D)', 'L = keys(D)',
@@ -256,6 +260,7 @@ NESTED_STEPS = ['N[0] *= K2', 'DN["a"] *= K2', 'DN["a"] *= K3', 'DN["a"] += DN["
                 'N[1] += N[0]', 'DN["a"].insert(0, {v})', 'DN["b"]["x{j}"] = 1', 'DN["a"] *= 2', 'N[0] += HL']
 STR_STEPS = ['S = S + "{w}"', 'L = enumerate(S)', 'L = map(S, c => c)', 'L = sorted(S)', 'S = S[:{i}]', 'S = upper(S)',
              'L = L + enumerate(S)', 'S = join(L, "")', 'S = replace(S, "a", "ab", 3)']
+DOUBLERS = {'L = L + L', 'L += L', 'T = T + T', 'T += T', 'DN["a"] += DN["a"]', 'DN["a"] = DN["a"] + DN["a"]', 'N[0] += N[0]', 'M += L', 'L += L + L'}
 LENS = [0, 1, 5, 9998, 9999, 10000, 10001]
 
 
@@ -298,13 +303,17 @@ def cases(draw):
                 continue
         step = tmpl.format(v=n(9), i=pick([0, 1, -1, 2]), j=n(50), w=pick(['xyz', 'ab', 'q']))
         steps.append(step)
-        if n(6) == 0:
-            steps.append(step)      # immediate repetition: doubling chains
+        if step in DOUBLERS and n(3) == 0:
+            steps.extend([step] * 14)       # a doubling chain: 2 -> 32768 in 14 steps
+            if step.startswith('T'):
+                steps.append(pick(['L = reversed(T)', 'L = sorted(T)', 'L = enumerate(T)']))
+        elif n(6) == 0:
+            steps.append(step)      # immediate repetition
     return {'src': '\n'.join(steps), 'lens': lens, 'excluded': excluded}
 
 
 # builtin sweep: every entry of the LIVE function table applied to near-cap containers and to each other's results
-SWEEP_VARS = ['L', 'D', 'S', 'HL', 'HS', 'N', 'DN', 'K2', 'M']
+SWEEP_VARS = ['L', 'D', 'S', 'HL', 'HS', 'N', 'DN', 'K2', 'M', 'HT']
 SWEEP_SCALARS = ['25000', '1000000', '10001', '0', '1', '2', '","', '"a"', '""', 'True', 'None', 'v => v', '(a, b) => a + b', 'v => [v, v]', '(k, v) => [k, v]', 'v => True',
                  '[1, 2]', '{"p": 1}', '-1', '1.5']
 
